@@ -218,7 +218,13 @@ _CTOR_ARGS = {"version": "optint", "flags": "int"}
 CTOR_UNITS = [
     (IPFILE, "pysrc_ctor_gen.v", "", " Base.PyStr Model.SrcPreludeStr Model.AddrText Model.SrcPreludeCtor Gen.pysrc_gen",
      [("IPAddress", "__init__:int", dict(_CTOR_ARGS, addr="int")), ("IPAddress", "__init__:copy", dict(_CTOR_ARGS, addr="obj")),
-      ("IPAddress", "__init__:str", dict(_CTOR_ARGS, addr="str"))]),
+      ("IPAddress", "__init__:str", dict(_CTOR_ARGS, addr="str")),
+      # pickled state (a state is the tuple of ints that __getstate__ made) and the IPRange constructor
+      ("IPAddress", "value", {}), ("IPAddress", "__getstate__", {}), ("IPAddress", "__setstate__", {"state": "tup2"}),
+      ("IPNetwork", "__getstate__", {}), ("IPNetwork", "__setstate__", {"state": "tup3"}),
+      ("IPRange", "__getstate__", {}), ("IPRange", "__setstate__", {"state": "tup3"}),
+      ("IPRange", "__init__:int", {"start": "int", "end": "int", "flags": "int"}),
+      ("IPRange", "__init__:str", {"start": "str", "end": "str", "flags": "int"})]),
 ]
 CTOR_FN_UNITS = tuple(u[1] for u in CTOR_UNITS)      # units whose functions are read by CtorFn
 UNITS += CTOR_UNITS
